@@ -216,6 +216,16 @@ def eval_point(pt, R):
         atol = atf * max(energy, 1e-300) if norm != 'coeff' else atf
         R.check(close(obs, ref, rtol, atol), kind, feats, pt, obs, ref,
                 'CORRELATION != sum_n x[n+k] conj(y[n]) / divisor (shorter input zero padded)', outs=(obs,), err=relerr(obs, ref, atol))
+        if kind == 'auto' and norm in ('biased', 'unbiased') and (len(x) <= 4 or pt.get('name')):
+            # the same array object given as both arguments, and the arguments left untouched
+            R.calls()
+            try:
+                keep = np.array(x, copy=True)
+                obs2 = np.asarray(spectrum.CORRELATION(x, x, maxlags=ml, norm=norm))
+                R.check(obs2.shape == obs.shape and close(obs2, ref, rtol, atol) and np.array_equal(keep, x), 'auto', dict(feats, sub='x is y'), pt, obs2, ref,
+                        'CORRELATION(x, x) (one object passed twice) != the autocorrelation, or the argument was modified')
+            except Exception as e:
+                R.viol('auto', dict(feats, sub='x is y', exc=type(e).__name__), pt, repr(e), ref, 'CORRELATION(x, x) raised')
         if kind == 'auto' and norm == 'coeff' and len(obs) > 0:
             R.check(abs(obs[0] - 1.0) <= atf, 'auto', dict(feats, sub='lag0'), pt, obs[0], 1.0, 'coeff autocorrelation is not 1 at lag 0')
         if kind == 'auto' and norm == 'biased' and ml is None and obs.shape == ref.shape:
